@@ -13,7 +13,7 @@ from ..oracles import dft
 
 PID = "C05"
 LEVEL = "exploration"
-RULE = ("full product N x dt x grid offset x force_real, and inside each: every response of the alphabet x every "
+RULE = ("full product N (quick: 11 lengths; thorough: every length 2..40 and lengths around 64/128/2048) x dt x grid offset x force_real, and inside each: every response of the alphabet x every "
         "input of the alphabet (all unit impulses for N<=17; impulses at 0,1,N/2,N-2,N-1, ramp, alternating "
         "otherwise); distinct_nontrivial = distinct (N, dt, offset, force_real, response, input) tuples whose output is "
         "not identically zero")
@@ -21,7 +21,7 @@ ASSUMPTIONS = ["numpy.fft is trusted as reference above N=65 (below, the referen
                "the no-wrap guarantee is stated for |delay| <= window length (DESIGN C05 S)"]
 
 NS_Q = [2, 3, 4, 5, 8, 9, 16, 17, 64, 65, 2048]
-NS_T = [2, 3, 4, 5, 8, 9, 16, 17, 64, 65, 2048, 2049]
+NS_T = list(range(2, 41)) + [63, 64, 65, 127, 128, 129, 2048, 2049]
 DTS_Q = [2.0 ** -33, 2.0 ** -20, 1.0]
 DTS_T = [2.0 ** -33, 2.0 ** -30, 2.0 ** -20, 2.0 ** -10, 1.0]
 OFFSETS = [0, -7, 1024]
